@@ -1023,7 +1023,7 @@ pub fn exhaust(ops: &[ScOp], variant: usize, budget: usize, limit: usize, resize
         let (t, taken, widths) = run_schedule(ops, variant, &path, budget, resizes);
         n += 1;
         emit(&t, &format!("scenario={} variant={} budget={} schedule={}", name.join("+"), variant, budget, n));
-        if t.error.as_deref().map(|e| e.starts_with("HANG")).unwrap_or(false) || n >= limit {
+        if t.error.as_deref().map(|e| e.starts_with("HANG") || e.starts_with("BLOCKED")).unwrap_or(false) || n >= limit {
             return n;
         }
         let mut d = taken.len();
